@@ -30,7 +30,7 @@ type WebsocketTransport struct {
 	Config  TransportConfiguration
 	decoder *xml.Decoder
 	wsConn  *websocket.Conn
-	queue   chan []byte
+	queue   *wsInbox
 	logFile io.Writer
 	// secure: the connection established by the last Connect runs over TLS
 	secure bool
@@ -49,8 +49,43 @@ type WebsocketTransport struct {
 	pending []byte
 }
 
+// wsInbox holds the messages read from the websocket and not yet handed to the decoder. It takes whatever arrives
+// without making the reader wait: the websocket library gives the connection up, with everything it has
+// buffered, as soon as a write or a ping on it fails, so what the peer sent before the connection was lost is only
+// safe here. (With a bounded queue a receiver that was more than its length behind lost the rest of what had
+// been received the moment an answer could not be written.)
+type wsInbox struct {
+	mu    sync.Mutex
+	msgs  [][]byte
+	ready chan struct{} // holds a token when msgs may be non-empty
+}
+
+func newWsInbox() *wsInbox { return &wsInbox{ready: make(chan struct{}, 1)} }
+
+func (q *wsInbox) put(data []byte) {
+	q.mu.Lock()
+	q.msgs = append(q.msgs, data)
+	q.mu.Unlock()
+	select {
+	case q.ready <- struct{}{}:
+	default:
+	}
+}
+
+func (q *wsInbox) take() ([]byte, bool) {
+	q.mu.Lock()
+	defer q.mu.Unlock()
+	if len(q.msgs) == 0 {
+		return nil, false
+	}
+	data := q.msgs[0]
+	q.msgs[0] = nil
+	q.msgs = q.msgs[1:]
+	return data, true
+}
+
 func (t *WebsocketTransport) Connect() (string, error) {
-	t.queue = make(chan []byte, 256)
+	t.queue = newWsInbox()
 	t.readerDone = make(chan struct{})
 	t.closeCtx, t.closeFunc = context.WithCancel(context.Background())
 	t.cleanupOnce = new(sync.Once)
@@ -151,11 +186,7 @@ func (t WebsocketTransport) startReader() {
 				return
 			}
 			if len(data) > 0 {
-				select {
-				case queue <- data:
-				case <-ctx.Done():
-					return
-				}
+				queue.put(data)
 			}
 		}
 	}()
@@ -240,30 +271,25 @@ func (t *WebsocketTransport) Read(p []byte) (int, error) {
 		t.pending = t.pending[n:]
 		return n, nil
 	}
-	// What the reader has queued was received before whatever happened to the connection since: it is handed out
-	// first. (A select picks among its ready cases at random: with the context cancelled - Close, called by the
-	// keepalive when its ping fails on a connection that is going away - a single select dropped the queue.)
-	select {
-	case data := <-queue:
-		return deliver(data)
-	default:
-	}
-	select {
-	case <-ctx.Done():
-		select {
-		case data := <-queue:
+	// What the reader has taken in was received before whatever happened to the connection since: it is handed
+	// out first, also when the transport has been closed meanwhile (by the keepalive, when its ping fails on a
+	// connection that is going away) or the reader has stopped.
+	for {
+		if data, ok := queue.take(); ok {
 			return deliver(data)
-		default:
-			return 0, ctx.Err()
 		}
-	case data := <-queue:
-		return deliver(data)
-	case <-done:
-		// The reader has stopped: hand out what it had received before, then report the end.
 		select {
-		case data := <-queue:
-			return deliver(data)
-		default:
+		case <-queue.ready:
+		case <-ctx.Done():
+			if data, ok := queue.take(); ok {
+				return deliver(data)
+			}
+			return 0, ctx.Err()
+		case <-done:
+			// The reader has stopped: nothing more will come.
+			if data, ok := queue.take(); ok {
+				return deliver(data)
+			}
 			return 0, io.EOF
 		}
 	}
@@ -295,8 +321,7 @@ func (t *WebsocketTransport) cleanup(code websocket.StatusCode) error {
 		once = new(sync.Once)
 	}
 	once.Do(func() {
-		// The queue is not closed: the reader goroutine may be about to send on it. Both it and a blocked
-		// Read are released by the cancellation of closeCtx below.
+		// A blocked Read is released by the cancellation of closeCtx below.
 		t.queue = nil
 		if t.wsConn != nil {
 			err = t.wsConn.Close(websocket.StatusGoingAway, "Done")
